@@ -9,6 +9,7 @@ import os
 import sys
 
 sys.path.insert(0, os.path.dirname(os.path.abspath(__file__)))
+sys.set_int_max_str_digits(0)            # integers of several thousand digits travel as JSON numbers
 from implbase import main, guarded
 
 
@@ -121,6 +122,23 @@ def handler(payload):
         def signature_length(self):
             return len(self.sig)
 
+    def cli_convert(blob, enc):
+        from click.testing import CliRunner
+        from spsdk.apps.nxpcrypto import main as cli_main
+        d = os.path.join(work, "cli_m")
+        os.makedirs(d, exist_ok=True)
+        fin, fout = os.path.join(d, "in.key"), os.path.join(d, "out.key")
+        with open(fin, "wb") as f:
+            f.write(blob)
+        if os.path.exists(fout):
+            os.remove(fout)
+        res = CliRunner().invoke(cli_main, ["key", "convert", "-e", enc, "-i", fin, "-o", fout])
+        if res.exception is not None and not isinstance(res.exception, SystemExit):
+            raise res.exception
+        if res.exit_code != 0:
+            raise RuntimeError(f"exit {res.exit_code}: {res.output[-200:]}")
+        return open(fout, "rb").read()
+
     def flip(b, bit):
         a = bytearray(b)
         a[bit // 8] ^= 1 << (bit % 8)
@@ -166,6 +184,24 @@ def handler(payload):
                 return keyval(cls.parse(H(a[0])))
             if fn == 18:
                 return 1 if SPSDKEncoding.get_file_encodings(H(a[0])) == SPSDKEncoding.PEM else 0
+            if fn in (20, 21):
+                # nxpcrypto key convert -e RAW on a PEM file of the key
+                if fn == 20:
+                    k = PublicKeyEcc.recreate(a[0], a[1], CURVES[{256: 0, 384: 1, 521: 2}[a[2]]])
+                    blob = k.export(SPSDKEncoding.PEM)
+                else:
+                    k = PrivateKeyEcc.recreate(a[0], CURVES[{256: 0, 384: 1, 521: 2}[a[1]]])
+                    blob = k.export(encoding=SPSDKEncoding.PEM)
+                return cli_convert(blob, "RAW")
+            if fn == 22:
+                # nxpcrypto key convert -e DER of a raw file = reconstruct_key + export
+                out = cli_convert(H(a[0]), "DER")
+                try:
+                    k = PublicKey.parse(out)
+                    return keyval(k)
+                except Exception:  # noqa
+                    k = PrivateKey.parse(out)
+                    return [2, cid(k.curve), k.d]
             raise KeyError(fn)
         if o == "bb":
             return blackboxes(H(op["data"]))
@@ -265,6 +301,20 @@ def handler(payload):
             os.remove(path)
             return {"sig": sig.hex(), "signature_length": sp.signature_length,
                     "verify_public_key": bool(sp.verify_public_key(k.get_public_key()))}
+        if o == "cert":
+            from spsdk.crypto.certificate import Certificate, generate_name
+            k = table[op["id"]]
+            name = generate_name([{"COMMON_NAME": op.get("cn", "c08")}])
+            crt = Certificate.generate_certificate(name, name, k.get_public_key(), k, serial_number=op["serial"],
+                                                   pss_padding=op.get("pss"))
+            out = {}
+            for encn in ("PEM", "DER", "NXP"):
+                blob = crt.export(ENC[encn])
+                c2 = Certificate.parse(blob)
+                out[encn] = {"blob": blob.hex(), "key": summary(c2.get_public_key()),
+                             "extract": summary(extract_public_key_from_data(blob)),
+                             "validate": bool(c2.validate(crt)), "eq_key": bool(c2.get_public_key() == k.get_public_key())}
+            return out
         if o == "cli":
             from click.testing import CliRunner
             from spsdk.apps.nxpcrypto import main as cli_main
